@@ -88,6 +88,39 @@ struct Violation {
   run: usize,
   /// index of the first run of the history given (inclusive)
   history_from: usize,
+  /// explicit history (instead of runs history_from..=run)
+  history_text: Option<String>,
+}
+
+struct Pending {
+  key: String,
+  class: char,
+  digest: u64,
+  run: usize,
+  tid: u8,
+  op: u16,
+  from_handle: bool,
+}
+
+fn cold_script(key: &str) -> String {
+  format!("run threads=1 policy=seq sched=0 hash=0 reset=1\nt0 q {}\nend\n", key)
+}
+
+/// The answer to `key` right after a restart (memo cleared, poison cleared, default hash seed),
+/// obtained as a one-operation run of its own under the simulator.
+fn cold_eval(key: &str, watchdog: Duration) -> Result<(char, u64), String> {
+  let runs = parse_runs(&cold_script(key)).map_err(|e| format!("harness-panic: cold script: {}", e))?;
+  let out = exec_run(&runs[0], false, false, watchdog);
+  if out.result.watchdog {
+    return Err("watchdog".to_string());
+  }
+  if let Some(a) = &out.result.abort {
+    return Err(a.clone());
+  }
+  match out.evals.first() {
+    Some(e) => Ok((e.class, e.digest)),
+    None => Err("harness-panic: cold evaluation produced no record".to_string()),
+  }
 }
 
 fn lunar_state_hash() -> (u64, usize, bool, bool, bool) {
@@ -194,10 +227,56 @@ pub fn explore(args: &[String]) -> i32 {
   let mut unwind_since_reset = false;
   let mut refused_months_since_reset: HashSet<(i64, i64)> = HashSet::new();
   let mut harness_error: Option<String> = None;
+  let mut cold: HashMap<String, (char, u64)> = HashMap::new();
+  let mut pending: Vec<Pending> = Vec::new();
+  let mut cold_evaluations = 0u64;
+  let mut cold_comparisons = 0u64;
+  let mut stop_worker = false;
+
+  // Compare every evaluation made since the last restart with the answer the same query gets
+  // right after a restart. Runs only at points where the next run starts with a restart anyway.
+  macro_rules! cold_phase {
+    () => {
+      let mut todo: Vec<String> = Vec::new();
+      for p in &pending {
+        if !cold.contains_key(&p.key) && !todo.contains(&p.key) {
+          todo.push(p.key.clone());
+        }
+      }
+      for k in todo {
+        match cold_eval(&k, watchdog) {
+          Ok(a) => {
+            cold_evaluations += 1;
+            cold.insert(k, a);
+          }
+          Err(why) => {
+            if why == "watchdog" || why.starts_with("harness-panic") {
+              harness_error = Some(format!("{} in the cold evaluation of `{}` (worker {}, seed {})", why, k, worker, seed));
+            } else {
+              violations.push(Violation { obligation: "P", key: String::new(), detail: why, run: run_texts.len().saturating_sub(1), history_from: 0, history_text: Some(cold_script(&k)) });
+            }
+            stop_worker = true;
+            break;
+          }
+        }
+      }
+      if !stop_worker {
+        for p in pending.drain(..) {
+          if let Some((c, d)) = cold.get(&p.key) {
+            cold_comparisons += 1;
+            if (*c != p.class || *d != p.digest) && !violated_keys.contains(&p.key) {
+              violated_keys.insert(p.key.clone());
+              violations.push(Violation { obligation: if p.from_handle { "V" } else { "A" }, key: p.key.clone(), detail: format!("run {} thread {} op {} gave class {} digest {:016x}; right after a restart the same query gives class {} digest {:016x}", p.run, p.tid, p.op, p.class, p.digest, c, d), run: p.run, history_from: p.run.saturating_sub(199), history_text: None });
+            }
+          }
+        }
+      }
+    };
+  }
 
   let mut r = first_run;
   loop {
-    if runs >= max_runs {
+    if runs >= max_runs || stop_worker {
       break;
     }
     if seconds > 0 && t0.elapsed().as_secs() >= seconds {
@@ -208,6 +287,12 @@ pub fn explore(args: &[String]) -> i32 {
     let sw = draw_swarm(&mut rng, &leap, conc);
     let reset = run_texts.is_empty() || rng.chance(3, 4);
     let script = gen_run(&mut rng, &sw, &pool, &leap, reset, &mut gs);
+    if reset && !pending.is_empty() {
+      cold_phase!();
+      if stop_worker || violations.len() >= 8 {
+        break;
+      }
+    }
     if reset {
       resets += 1;
       last_reset_run = run_texts.len();
@@ -232,7 +317,7 @@ pub fn explore(args: &[String]) -> i32 {
         harness_error = Some(format!("{} in run {} of worker {} (seed {})", why, r, worker, seed));
         break;
       }
-      violations.push(Violation { obligation: "P", key: String::new(), detail: why.clone(), run: run_index, history_from: run_index.saturating_sub(199) });
+      violations.push(Violation { obligation: "P", key: String::new(), detail: why.clone(), run: run_index, history_from: run_index.saturating_sub(199), history_text: None });
       break;
     }
     // statistics
@@ -269,6 +354,7 @@ pub fn explore(args: &[String]) -> i32 {
     let mut months_in_run: HashSet<(i64, i64)> = HashSet::new();
     for e in &evals {
       evaluations += 1;
+      pending.push(Pending { key: e.key.clone(), class: e.class, digest: e.digest, run: run_index, tid: e.tid, op: e.op, from_handle: e.from_handle });
       eval_hash = fnv(eval_hash, e.key.as_bytes());
       eval_hash = fnv(eval_hash, &e.digest.to_le_bytes());
       if e.from_handle {
@@ -316,14 +402,14 @@ pub fn explore(args: &[String]) -> i32 {
         run_comparisons += 1;
         if (*c != e.class || *d != e.digest) && !violated_keys.contains(&e.key) {
           violated_keys.insert(e.key.clone());
-          violations.push(Violation { obligation: "R", key: e.key.clone(), detail: format!("from_ym gave class {} digest {:016x}, LunarMonth::new gave class {} digest {:016x} (run {} thread {} op {})", e.class, e.digest, c, d, run_index, e.tid, e.op), run: run_index, history_from: run_index.saturating_sub(199) });
+          violations.push(Violation { obligation: "R", key: e.key.clone(), detail: format!("from_ym gave class {} digest {:016x}, LunarMonth::new gave class {} digest {:016x} (run {} thread {} op {})", e.class, e.digest, c, d, run_index, e.tid, e.op), run: run_index, history_from: run_index.saturating_sub(199), history_text: None });
         }
       }
       match table.get(&e.key) {
         None => {
           table.insert(e.key.clone(), (e.class, e.digest, run_index));
           if report_key.as_deref() == Some(e.key.as_str()) {
-            violations.push(Violation { obligation: "X", key: e.key.clone(), detail: format!("first evaluation of the reported key: run {} thread {} op {} class {} digest {:016x}", run_index, e.tid, e.op, e.class, e.digest), run: run_index, history_from: run_index.saturating_sub(199) });
+            violations.push(Violation { obligation: "X", key: e.key.clone(), detail: format!("first evaluation of the reported key: run {} thread {} op {} class {} digest {:016x}", run_index, e.tid, e.op, e.class, e.digest), run: run_index, history_from: run_index.saturating_sub(199), history_text: None });
           }
         }
         Some((c, d, first)) => {
@@ -331,7 +417,7 @@ pub fn explore(args: &[String]) -> i32 {
           run_comparisons += 1;
           if (*c != e.class || *d != e.digest) && !violated_keys.contains(&e.key) {
             violated_keys.insert(e.key.clone());
-            violations.push(Violation { obligation: if e.from_handle { "V" } else { "A" }, key: e.key.clone(), detail: format!("run {} thread {} op {} gave class {} digest {:016x}; first evaluation in this process (run {}) gave class {} digest {:016x}", run_index, e.tid, e.op, e.class, e.digest, first, c, d), run: run_index, history_from: run_index.saturating_sub(199).min(*first) });
+            violations.push(Violation { obligation: if e.from_handle { "V" } else { "A" }, key: e.key.clone(), detail: format!("run {} thread {} op {} gave class {} digest {:016x}; first evaluation in this process (run {}) gave class {} digest {:016x}", run_index, e.tid, e.op, e.class, e.digest, first, c, d), run: run_index, history_from: run_index.saturating_sub(199).min(*first), history_text: None });
           }
         }
       }
@@ -380,12 +466,16 @@ pub fn explore(args: &[String]) -> i32 {
     }
     r += 1;
   }
+  if harness_error.is_none() && !stop_worker && violations.iter().all(|v| v.obligation != "P") && !pending.is_empty() {
+    cold_phase!();
+  }
   let _ = last_reset_run;
 
   // output
   let mut o = String::new();
   o.push_str("{\n");
   let _ = write!(o, "\"mode\":\"explore\",\"seed\":{},\"worker\":{},\"runs\":{},\"wall_s\":{:.3},", seed, worker, runs, t0.elapsed().as_secs_f64());
+  let _ = write!(o, "\"cold_evaluations\":{},\"cold_comparisons\":{},", cold_evaluations, cold_comparisons);
   let _ = write!(o, "\"evaluations\":{},\"comparisons\":{},\"r_checks\":{},\"handle_evaluations\":{},", evaluations, comparisons, r_checks, handle_evals);
   let _ = write!(o, "\"refusals\":{},\"refusals_through_lock_unwind\":{},\"runs_ending_with_poisoned_lock\":{},", refusals_err, refusals_panic, refusals_poison);
   let _ = write!(o, "\"steps\":{},\"decisions\":{},\"switches\":{},\"blocked_events\":{},\"lock_acquisitions\":{},", steps, decisions, switches, blocked, lock_acq);
@@ -427,8 +517,13 @@ pub fn explore(args: &[String]) -> i32 {
       o.push(',');
     }
     let mut hist = String::new();
-    for t in &run_texts[v.history_from..=v.run] {
-      hist.push_str(t);
+    match &v.history_text {
+      Some(t) => hist.push_str(t),
+      None => {
+        for t in &run_texts[v.history_from..=v.run] {
+          hist.push_str(t);
+        }
+      }
     }
     let _ = write!(o, "{{\"obligation\":\"{}\",\"key\":\"{}\",\"detail\":\"{}\",\"run\":{},\"history_from\":{},\"history\":\"{}\"}}", v.obligation, esc(&v.key), esc(&v.detail), v.run, v.history_from, esc(&hist));
   }
